@@ -23,7 +23,8 @@ CASES = [
 
 
 MSG_CASES = ('ref_detached_col1_sql', 'ref_detached_col2_sql', 'ref_detached_col1_dbml', 'ref_detached_col2_dbml',
-             'table_sql_refs_detached', 'ref_m2m_detached_sql')
+             'table_sql_refs_detached', 'ref_m2m_detached_sql', 'ref_composite_detached_trailing_sql',
+             'ref_composite_detached_trailing_dbml', 'ref_in_db_detached_sql', 'ref_in_db_detached_dbml')
 
 
 def refused(K=2):
